@@ -211,7 +211,7 @@ def run (c : Json) : E Json := do
   let chain ← (← arr c "steps").mapM fun s => do
     let ref ← str s "ref"
     match mechs.find? (fun m => m.id == ref) with
-    | some m => pure { m with override := optBool s "fb" }
+    | some m => pure { m with override := optBool s "fb", key := strD s "key" ref }
     | none => throw s!"unknown authenticator {ref}"
   let w ← parseWorld (fldD c "world" (Json.mkObj []))
   let wf := w.wf && chain.all Authn.wf
